@@ -41,7 +41,7 @@ RULES = [
     # subterm that only BECOMES equal to x after its own occurrences were replaced is not x (defect D17)
     ("add-p", "(add ?a P)", "?a", None),
     # a left side that passes twice through a class which an EARLIER rule of the same pass makes slot-free
-    ("add-mul0", "(add (mul ?a 0) (mul ?a 0))", "0", None),
+    ("add-mul0", "(add (mul ?a 0) (mul ?a 0))", "(mul 0 ?a)", None),
     ("sum-shift", "(sum 1 ?a)", "(sum 1 (subst ?a (var 1) (add (var 1) 1)))", None),
     ("sum-scale", "(sum 1 ?a)", "(sum 1 (subst ?a (var 1) (mul 2 (var 1))))", None),
 ]
